@@ -65,14 +65,41 @@ func CompareAndSwapPointer(addr *unsafe.Pointer, old, new unsafe.Pointer) bool {
 	return ra.CompareAndSwapPointer(addr, old, new)
 }
 
-func LoadInt32(addr *int32) int32       { sim.Yield(sim.OpLoad); return ra.LoadInt32(addr) }
-func LoadInt64(addr *int64) int64       { sim.Yield(sim.OpLoad); return ra.LoadInt64(addr) }
-func LoadUint32(addr *uint32) uint32    { sim.Yield(sim.OpLoad); return ra.LoadUint32(addr) }
-func LoadUint64(addr *uint64) uint64    { sim.Yield(sim.OpLoad); return ra.LoadUint64(addr) }
-func LoadUintptr(addr *uintptr) uintptr { sim.Yield(sim.OpLoad); return ra.LoadUintptr(addr) }
+func LoadInt32(addr *int32) int32 {
+	sim.Yield(sim.OpLoad)
+	v := ra.LoadInt32(addr)
+	sim.AfterLoad()
+	return v
+}
+func LoadInt64(addr *int64) int64 {
+	sim.Yield(sim.OpLoad)
+	v := ra.LoadInt64(addr)
+	sim.AfterLoad()
+	return v
+}
+func LoadUint32(addr *uint32) uint32 {
+	sim.Yield(sim.OpLoad)
+	v := ra.LoadUint32(addr)
+	sim.AfterLoad()
+	return v
+}
+func LoadUint64(addr *uint64) uint64 {
+	sim.Yield(sim.OpLoad)
+	v := ra.LoadUint64(addr)
+	sim.AfterLoad()
+	return v
+}
+func LoadUintptr(addr *uintptr) uintptr {
+	sim.Yield(sim.OpLoad)
+	v := ra.LoadUintptr(addr)
+	sim.AfterLoad()
+	return v
+}
 func LoadPointer(addr *unsafe.Pointer) unsafe.Pointer {
 	sim.Yield(sim.OpLoad)
-	return ra.LoadPointer(addr)
+	v := ra.LoadPointer(addr)
+	sim.AfterLoad()
+	return v
 }
 
 func StoreInt32(addr *int32, val int32)       { sim.Yield(sim.OpStore); ra.StoreInt32(addr, val) }
@@ -107,7 +134,12 @@ func SwapPointer(addr *unsafe.Pointer, new unsafe.Pointer) unsafe.Pointer {
 // Value mirrors atomic.Value (zero value usable, composite literal Value{} valid).
 type Value struct{ v ra.Value }
 
-func (v *Value) Load() any        { sim.Yield(sim.OpValLoad); return v.v.Load() }
+func (v *Value) Load() any {
+	sim.Yield(sim.OpValLoad)
+	r := v.v.Load()
+	sim.AfterLoad()
+	return r
+}
 func (v *Value) Store(val any)    { sim.Yield(sim.OpValStore); v.v.Store(val) }
 func (v *Value) Swap(new any) any { sim.Yield(sim.OpSwap); return v.v.Swap(new) }
 func (v *Value) CompareAndSwap(old, new any) bool {
@@ -118,7 +150,12 @@ func (v *Value) CompareAndSwap(old, new any) bool {
 // Typed atomics: wrappers with the same method sets.
 type Int32 struct{ v ra.Int32 }
 
-func (x *Int32) Load() int32          { sim.Yield(sim.OpLoad); return x.v.Load() }
+func (x *Int32) Load() int32 {
+	sim.Yield(sim.OpLoad)
+	r := x.v.Load()
+	sim.AfterLoad()
+	return r
+}
 func (x *Int32) Store(val int32)      { sim.Yield(sim.OpStore); x.v.Store(val) }
 func (x *Int32) Swap(new int32) int32 { sim.Yield(sim.OpSwap); return x.v.Swap(new) }
 func (x *Int32) Add(d int32) int32    { sim.Yield(sim.OpAdd); return x.v.Add(d) }
@@ -129,7 +166,12 @@ func (x *Int32) CompareAndSwap(old, new int32) bool {
 
 type Int64 struct{ v ra.Int64 }
 
-func (x *Int64) Load() int64          { sim.Yield(sim.OpLoad); return x.v.Load() }
+func (x *Int64) Load() int64 {
+	sim.Yield(sim.OpLoad)
+	r := x.v.Load()
+	sim.AfterLoad()
+	return r
+}
 func (x *Int64) Store(val int64)      { sim.Yield(sim.OpStore); x.v.Store(val) }
 func (x *Int64) Swap(new int64) int64 { sim.Yield(sim.OpSwap); return x.v.Swap(new) }
 func (x *Int64) Add(d int64) int64    { sim.Yield(sim.OpAdd); return x.v.Add(d) }
@@ -140,7 +182,12 @@ func (x *Int64) CompareAndSwap(old, new int64) bool {
 
 type Uint32 struct{ v ra.Uint32 }
 
-func (x *Uint32) Load() uint32           { sim.Yield(sim.OpLoad); return x.v.Load() }
+func (x *Uint32) Load() uint32 {
+	sim.Yield(sim.OpLoad)
+	r := x.v.Load()
+	sim.AfterLoad()
+	return r
+}
 func (x *Uint32) Store(val uint32)       { sim.Yield(sim.OpStore); x.v.Store(val) }
 func (x *Uint32) Swap(new uint32) uint32 { sim.Yield(sim.OpSwap); return x.v.Swap(new) }
 func (x *Uint32) Add(d uint32) uint32    { sim.Yield(sim.OpAdd); return x.v.Add(d) }
@@ -151,7 +198,12 @@ func (x *Uint32) CompareAndSwap(old, new uint32) bool {
 
 type Uint64 struct{ v ra.Uint64 }
 
-func (x *Uint64) Load() uint64           { sim.Yield(sim.OpLoad); return x.v.Load() }
+func (x *Uint64) Load() uint64 {
+	sim.Yield(sim.OpLoad)
+	r := x.v.Load()
+	sim.AfterLoad()
+	return r
+}
 func (x *Uint64) Store(val uint64)       { sim.Yield(sim.OpStore); x.v.Store(val) }
 func (x *Uint64) Swap(new uint64) uint64 { sim.Yield(sim.OpSwap); return x.v.Swap(new) }
 func (x *Uint64) Add(d uint64) uint64    { sim.Yield(sim.OpAdd); return x.v.Add(d) }
@@ -162,7 +214,12 @@ func (x *Uint64) CompareAndSwap(old, new uint64) bool {
 
 type Uintptr struct{ v ra.Uintptr }
 
-func (x *Uintptr) Load() uintptr            { sim.Yield(sim.OpLoad); return x.v.Load() }
+func (x *Uintptr) Load() uintptr {
+	sim.Yield(sim.OpLoad)
+	r := x.v.Load()
+	sim.AfterLoad()
+	return r
+}
 func (x *Uintptr) Store(val uintptr)        { sim.Yield(sim.OpStore); x.v.Store(val) }
 func (x *Uintptr) Swap(new uintptr) uintptr { sim.Yield(sim.OpSwap); return x.v.Swap(new) }
 func (x *Uintptr) Add(d uintptr) uintptr    { sim.Yield(sim.OpAdd); return x.v.Add(d) }
@@ -173,7 +230,12 @@ func (x *Uintptr) CompareAndSwap(old, new uintptr) bool {
 
 type Bool struct{ v ra.Bool }
 
-func (x *Bool) Load() bool         { sim.Yield(sim.OpLoad); return x.v.Load() }
+func (x *Bool) Load() bool {
+	sim.Yield(sim.OpLoad)
+	r := x.v.Load()
+	sim.AfterLoad()
+	return r
+}
 func (x *Bool) Store(val bool)     { sim.Yield(sim.OpStore); x.v.Store(val) }
 func (x *Bool) Swap(new bool) bool { sim.Yield(sim.OpSwap); return x.v.Swap(new) }
 func (x *Bool) CompareAndSwap(old, new bool) bool {
@@ -183,7 +245,12 @@ func (x *Bool) CompareAndSwap(old, new bool) bool {
 
 type Pointer[T any] struct{ v ra.Pointer[T] }
 
-func (x *Pointer[T]) Load() *T       { sim.Yield(sim.OpLoad); return x.v.Load() }
+func (x *Pointer[T]) Load() *T {
+	sim.Yield(sim.OpLoad)
+	r := x.v.Load()
+	sim.AfterLoad()
+	return r
+}
 func (x *Pointer[T]) Store(val *T)   { sim.Yield(sim.OpStore); x.v.Store(val) }
 func (x *Pointer[T]) Swap(new *T) *T { sim.Yield(sim.OpSwap); return x.v.Swap(new) }
 func (x *Pointer[T]) CompareAndSwap(old, new *T) bool {
